@@ -59,16 +59,19 @@ var c06Spellings = []c06Spelling{
 	{"Result", directive.Result, false, "Result\n{\"r\": %d}", false},
 	{"TAG", directive.TAG, false, "TAG @g%d", false},
 	{"Tags", directive.Tags, false, "Tags @g%d", false},
+	{"503", directive.HTTPResponseCode, false, "503 any", false},
+	{"100", directive.HTTPResponseCode, false, "100\n{}", false},
 }
 
 func init() {
 	fw.Register(&fw.Check{
 		ID:    "C06",
 		Level: "exploration",
-		Rule: "sequences of directive kinds (34 neutral spellings: the 29 tree kinds plus path-bearing variants of the five HTTP methods; INCLUDE never enters the tree) with parentheses: " +
+		Rule: "sequences of directive kinds (36 neutral spellings: the 29 tree kinds plus path-bearing variants of the five HTTP methods and two more response codes (5xx with a parameter, 1xx with its body on the next line); INCLUDE never enters the tree) with parentheses: " +
 			"all sequences up to the length bound, each with every placement of one '(' ')' pair, of a lone '(' and of a lone ')', plus random longer sequences with random parentheses; " +
 			"the directive tree the real scanner+core build (hook: scan-only entry and tree accessors) must be isomorphic (kind, keyword offset, children order) to the tree of a 40-line reference walk written from the statement over the repo's public admissibility table, " +
-			"and the rejection class (incorrect context / no context to close / unclosed context) must agree exactly; a second family checks the tree after MACRO/PASTE expansion against the reference run on the sequence with the macro body written in place. " +
+			"and the rejection class (incorrect context / no context to close / unclosed context) must agree exactly; a second family checks the tree after MACRO/PASTE expansion against the reference run on the sequence with the macro body written in place; " +
+			"a third cuts a random sequence at any element boundary (also between a directive and its '(' or before a ')') and moves the tail into an included file: inclusion is textual, so rejection class and tree (kinds and nesting) must equal those of the uncut text. " +
 			"distinct_nontrivial = distinct (context kind, incoming kind, decision) triples decided by the reference on the executed sequences",
 		Assumptions: []string{
 			"'(' is only emitted directly after a directive that has no free-text body (after Description a '(' line is text by the language)",
@@ -79,6 +82,7 @@ func init() {
 			{Name: "sequences", Stream: c06StreamSequences, Eval: c06Eval},
 			{Name: "random", N: constN(30000, 1200000), Gen: c06GenRandom, Eval: c06Eval},
 			{Name: "paste", N: constN(20000, 600000), Gen: c06GenPaste, Eval: c06EvalPaste},
+			{Name: "tail-split", N: constN(6000, 200000), Gen: c06GenRandom, Eval: c06EvalSplit},
 		},
 		Floors: map[string]int64{"trees_compared": 20000, "rejections_compared": 20000},
 	})
@@ -200,7 +204,7 @@ func c06StreamSequences(t *fw.T, shard, nshards int, emit func(*fw.Case)) {
 // weights: favour kinds that nest
 func c06PickKind(r *xrand.Rand) int {
 	if r.Chance(1, 2) {
-		hot := []int{7, 8, 9, 13, 14, 19, 20, 18, 21, 22, 23, 27, 28, 29, 30, 31, 33, 4, 1, 5, 26}
+		hot := []int{7, 8, 9, 13, 14, 19, 20, 18, 21, 22, 23, 27, 28, 29, 30, 31, 33, 4, 1, 5, 26, 34, 35, 4}
 		return hot[r.Intn(len(hot))]
 	}
 	return r.Intn(len(c06Spellings))
@@ -565,4 +569,95 @@ func c06EvalPaste(t *fw.T, c *fw.Case) {
 	t.Count("paste_trees_compared")
 	decisions(t, want, "")
 	t.Sample("paste-tree", map[string]interface{}{"input": text, "tree": resolver.Render(got)})
+}
+
+
+// ---- the tail of a sequence moved into an included file ----
+
+func renderKinds(items []*resolver.Item) string {
+	var sb strings.Builder
+	var rec func(it *resolver.Item)
+	rec = func(it *resolver.Item) {
+		sb.WriteString(it.Kind.String())
+		if it.HasPath {
+			sb.WriteString("/p")
+		}
+		if len(it.Children) > 0 {
+			sb.WriteString("[")
+			for i, c := range it.Children {
+				if i > 0 {
+					sb.WriteString(" ")
+				}
+				rec(c)
+			}
+			sb.WriteString("]")
+		}
+	}
+	for i, it := range items {
+		if i > 0 {
+			sb.WriteString(" ")
+		}
+		rec(it)
+	}
+	return sb.String()
+}
+
+func c06EvalSplit(t *fw.T, c *fw.Case) {
+	seq := decodeSeq(c.Meta["seq"])
+	if len(seq) < 2 {
+		return
+	}
+	r := xrand.Derive(t.Seed, c.Index, "C06", "split")
+	k := r.Range(1, len(seq)-1)
+	for _, s := range seq[k:] {
+		if s >= 0 && c06Spellings[s].kind == directive.Jsight {
+			t.Count("split_skipped_jsight_in_tail")
+			return // JSIGHT may not stand in an included file: not a textual matter
+		}
+	}
+	whole := c06Render(seq)
+	// render head and tail with the same numbering as the whole
+	head := c06Render(seq[:k])
+	tail := whole[len(head):]
+	dWhole := run.Doc{Files: map[string][]byte{"root.jst": []byte(whole)}, Root: "root.jst", OnDisk: true}
+	dSplit := run.Doc{Files: map[string][]byte{"root.jst": []byte(head + "INCLUDE tail.jst\n"), "tail.jst": []byte(tail)}, Root: "root.jst"}
+	c.Docs = []run.Doc{dWhole, dSplit}
+	ow := t.ExecKeep(dWhole)
+	os := t.ExecKeep(dSplit)
+	if os.Outcome == run.Panic || os.Outcome == run.Budget {
+		t.Violation("split-panic", fmt.Sprintf("%s %s; root %q tail %q", os.Outcome, os.PanicVal, head, tail))
+		return
+	}
+	cls := func(o *run.Obs) string {
+		if o.Outcome != run.Rejected {
+			return ""
+		}
+		if rc := rejectionClass(o.Msg); !strings.HasPrefix(rc, "other:") {
+			return rc
+		}
+		return ""
+	}
+	t.Count("splits_compared")
+	cw, cs := cls(ow), cls(os)
+	if cw != cs {
+		t.Violation(fmt.Sprintf("split-rejection:%s-vs-%s", orOK(cs), orOK(cw)), fmt.Sprintf("moving the tail into an included file changes the context verdict: uncut %s | cut %s\n--- root\n%sINCLUDE tail.jst\n--- tail.jst\n%s", describe(ow), describe(os), head, tail))
+		return
+	}
+	if cw != "" || ow.Core == nil || os.Core == nil {
+		t.Distinct("split reject " + cw)
+		return
+	}
+	gw, gs := renderKinds(resolver.FromDirectives(ow.Core.VerifDirectives())), renderKinds(resolver.FromDirectives(os.Core.VerifDirectives()))
+	if gw != gs {
+		t.Violation("split-tree-differs", fmt.Sprintf("moving the tail into an included file changes the directive tree:\n  uncut: %s\n  cut:   %s\n--- root\n%sINCLUDE tail.jst\n--- tail.jst\n%s", gw, gs, head, tail))
+		return
+	}
+	t.Count("split_trees_compared")
+	last := "directive"
+	if seq[k] == -1 {
+		last = "open-paren"
+	} else if seq[k] == -2 {
+		last = "close-paren"
+	}
+	t.Distinct("split before " + last)
 }
